@@ -4,8 +4,11 @@ package c02
 
 import (
 	"context"
+	"fmt"
+	"github.com/form3tech-oss/f1/v2/internal/trigger/api"
 	"sort"
 	"strconv"
+	"strings"
 	"sync"
 	"sync/atomic"
 	"testing"
@@ -232,6 +235,7 @@ func TestC04Runs(t *testing.T) {
 	dir := t.TempDir()
 	for rep := 0; rep < kit.N(2, 12); rep++ {
 		fileHandles(o, r, dir, rep)
+		fileUsers(o, r, dir, rep)
 	}
 	n := kit.N(12, 90)
 	for i := 0; i < n; i++ {
@@ -333,6 +337,49 @@ func fileHandles(o *kit.Out, r *kit.Rand, dir string, idx int) {
 	o.Case("c04_ok", []string{kit.I(min(ob.hwm.Load(), int64(big))), kit.I(big), kit.B(ob.shared.Load()), "T"}, "T", "run", "file", "handles")
 }
 
+// A config file made of users stages only: a users stage ends when its users have finished
+// their last iteration, so the next stage's users never run beside them - at no instant are more
+// iterations executing than the largest stage concurrency, however long the iterations take.
+func fileUsers(o *kit.Out, r *kit.Rand, dir string, idx int) {
+	ob := &obs{live: map[*f1testing.T]bool{}}
+	hold := time.Duration(r.Range(25, 90)) * time.Millisecond // well beyond the gap between two stages
+	scenario := func(*f1testing.T) f1testing.RunFn {
+		return func(t *f1testing.T) {
+			ob.enter(t)
+			defer ob.leave(t)
+			time.Sleep(hold)
+		}
+	}
+	ns := int(r.Range(2, 4))
+	maxc := 0
+	yaml := "scenario: verifscenario\ndefault:\n  mode: users\n  jitter: 0\n  distribution: none\n" +
+		"limits:\n  max-duration: 3s\n  concurrency: 8\n  max-iterations: 0\n  ignore-dropped: true\nstages:\n"
+	var cs []string
+	for k := 0; k < ns; k++ {
+		c := int(r.Range(1, 6))
+		maxc = max(maxc, c)
+		cs = append(cs, strconv.Itoa(c))
+		yaml += "  - duration: " + strconv.Itoa(int(r.Range(60, 140))) + "ms\n    mode: users\n    concurrency: " + strconv.Itoa(c) + "\n"
+	}
+	file := dir + "/c04u_" + strconv.Itoa(idx) + ".yaml"
+	_ = writeFile(file, yaml)
+	out, hung, dump := runkit.DoTimeout(runkit.Config{Mode: "file", FileArg: file, Scenario: scenario, Ctx: context.Background(),
+		Opts: options.RunOptions{MaxDuration: 3 * time.Second, Concurrency: 8, IgnoreDropped: true}}, 60*time.Second)
+	if hung {
+		o.Fail("c04-run-hung", "file run did not return: "+dump[:min(len(dump), 2000)])
+		return
+	}
+	if out.Err != nil {
+		o.Fail("c04-run-error", "file run failed: "+out.Err.Error())
+		return
+	}
+	if ob.hwm.Load() > int64(maxc) {
+		o.Fail("more-in-flight-than-concurrency", fmt.Sprintf("config file of users stages with concurrency %s and iterations of %s: %d iterations were executing at the same time", strings.Join(cs, ","), hold, ob.hwm.Load()))
+	}
+	o.Count("mode", "file of users stages")
+	o.Case("c04_ok", []string{kit.I(ob.hwm.Load()), kit.I(maxc), kit.B(ob.shared.Load()), "T"}, "T", "run", "file", "users-stages", "nt")
+}
+
 // ---------------------------------------------------------------- C03: whole runs ended by the limit, all modes and file stages
 
 func TestC03Runs(t *testing.T) {
@@ -411,5 +458,98 @@ func TestC03Runs(t *testing.T) {
 		ended := out.Elapsed < 2500*time.Millisecond
 		o.Count("mode", mode)
 		o.Case("c03_ok", []string{kit.Ints(ids), kit.I(limit), kit.B(ended)}, "T", "run", mode, "nt")
+	}
+}
+
+// ---------------------------------------------------------------- C02: whole runs through the ticking goroutine of api.NewIterationWorker
+
+// The rate function is scripted and logged; on its last scripted call it cancels the run and from
+// then on requests 0, so every logged value was handed to the pool while triggering was on. The
+// max-iterations limit, when set, is never reached (the workers are held, or the limit is far
+// away), so nothing may be discarded: requested = started + dropped exactly, whatever the tick
+// sizes are relative to the iterations the limit still allows.
+func TestC02Runs(t *testing.T) {
+	o := kit.Get()
+	defer o.Close()
+	r := kit.NewRand(kit.Seed() + 22)
+	for i := 0; i < kit.N(10, 80); i++ {
+		conc := int(r.Range(1, 4))
+		held := r.Chance(70) // workers held until the run is cancelled: the pool stays saturated
+		limit := uint64(0)
+		switch r.Intn(3) {
+		case 0:
+			limit = uint64(conc) + uint64(r.Range(1, 6)) // near, but out of reach while the workers are held
+			held = true
+		case 1:
+			limit = 100000
+		}
+		nticks := int(r.Range(3, 8))
+		script := make([]int64, nticks)
+		for k := range script {
+			script[k] = kit.Pick(r, r.Range(0, 3), r.Range(3, 12), int64(conc), int64(conc)+r.Range(1, 9))
+		}
+		ctx, cancel := context.WithCancel(context.Background())
+		release := make(chan struct{})
+		var mu sync.Mutex
+		var values []int64
+		calls := 0
+		rateFn := func(time.Time) int {
+			mu.Lock()
+			defer mu.Unlock()
+			calls++
+			if calls > nticks {
+				if calls == nticks+1 {
+					cancel()
+					close(release)
+				}
+				return 0
+			}
+			v := script[calls-1]
+			values = append(values, v)
+			return int(v)
+		}
+		ob := &obs{live: map[*f1testing.T]bool{}}
+		scenario := func(*f1testing.T) f1testing.RunFn {
+			return func(t *f1testing.T) {
+				ob.enter(t)
+				defer ob.leave(t)
+				if held {
+					<-release
+				}
+			}
+		}
+		trig := &api.Trigger{Trigger: api.NewIterationWorker(15*time.Millisecond, rateFn), Description: "verif"}
+		cfg := runkit.Config{Mode: "custom", Scenario: scenario, Ctx: ctx,
+			Opts: options.RunOptions{MaxDuration: 5 * time.Second, Concurrency: conc, MaxIterations: limit, IgnoreDropped: true}}
+		out := runkit.DoWithTrigger(cfg, trig)
+		cancel()
+		if out.Err != nil || out.Result == nil {
+			o.Fail("c02-run-error", fmt.Sprintf("run failed: %v", out.Err))
+			continue
+		}
+		sn := out.Result.Snapshot()
+		mu.Lock()
+		var requested int64
+		for _, v := range values {
+			requested += v
+		}
+		vs := append([]int64(nil), values...)
+		mu.Unlock()
+		started := ob.started.Load()
+		dropped := int64(sn.DroppedIterationCount)
+		if limit > 0 && uint64(started) >= limit {
+			o.Count("run", "limit reached (skipped)")
+			continue
+		}
+		tags := []string{"run", "ticker"}
+		if dropped > 0 {
+			tags = append(tags, "nt")
+		}
+		o.Count("run", map[bool]string{true: "workers held", false: "instant workers"}[held]+map[bool]string{true: ", limit set", false: ", no limit"}[limit > 0])
+		if requested != started+dropped {
+			o.Fail("requests-lost-before-the-pool", fmt.Sprintf("ticks %v through api.NewIterationWorker, %d workers (held=%v), max-iterations %d: %d requested, %d started, %d reported dropped - %d request(s) neither started nor dropped although the limit was never reached",
+				vs, conc, held, limit, requested, started, dropped, requested-started-dropped))
+		}
+		o.Case("c02_ok", []string{kit.I(requested), kit.I(started), kit.I(dropped), "F", "0"}, "T", tags...)
 	}
 }
